@@ -228,9 +228,24 @@ std::optional<T> string_to_number(const std::string_view str)
 }
 
 inline std::string to_integer_literal(
-    const std::string_view value, const std::string_view type)
+    std::string_view value, const std::string_view type)
 {
     assert(!value.empty() && (type != "float") && (type != "double"));
+
+    // `std::from_chars` accepts leading zeros ("010" is ten) but in C++ they
+    // make an octal literal, strip them
+    std::string normalized_value;
+    {
+        const auto is_negative = (value[0] == '-');
+        auto digits = value.substr(is_negative ? 1 : 0);
+        while((digits.size() > 1) && (digits[0] == '0'))
+        {
+            digits.remove_prefix(1);
+        }
+        normalized_value = is_negative ? "-" : "";
+        normalized_value.append(digits);
+        value = normalized_value;
+    }
 
     if((type == "int64") && (value[0] == '-'))
     {
